@@ -327,6 +327,27 @@ def un_else(tree):
     return tree, n
 
 
+def ifexp_to_if(tree):
+    """x = A if C else B   ->   if C: x = A  else: x = B      (single plain target; also `return A if C else B`)"""
+    n = 0
+    for node, fld, b in list(_blocks(tree)):
+        out = []
+        for st in b:
+            if isinstance(st, ast.Assign) and len(st.targets) == 1 and isinstance(st.targets[0], (ast.Name, ast.Attribute)) and isinstance(st.value, ast.IfExp):
+                v = st.value
+                out.append(ast.If(test=v.test, body=[ast.Assign(targets=st.targets, value=v.body, lineno=st.lineno)],
+                                  orelse=[ast.Assign(targets=st.targets, value=v.orelse, lineno=st.lineno)]))
+                n += 1
+            elif isinstance(st, ast.Return) and isinstance(st.value, ast.IfExp):
+                v = st.value
+                out.append(ast.If(test=v.test, body=[ast.Return(value=v.body)], orelse=[ast.Return(value=v.orelse)]))
+                n += 1
+            else:
+                out.append(st)
+        setattr(node, fld, out)
+    return tree, n
+
+
 def transform(kind, src):
     if kind == "unparse":
         return ast.unparse(ast.parse(src)) + "\n", 1
@@ -350,6 +371,10 @@ def transform(kind, src):
         return ast.unparse(t) + "\n", 1
     if kind in ("elsewrap", "unelse"):
         t, n = (else_wrap if kind == "elsewrap" else un_else)(ast.parse(src))
+        ast.fix_missing_locations(t)
+        return ast.unparse(t) + "\n", n
+    if kind == "ifexp":
+        t, n = ifexp_to_if(ast.parse(src))
         ast.fix_missing_locations(t)
         return ast.unparse(t) + "\n", n
     if kind == "inlineall":
@@ -386,7 +411,7 @@ def run(args):
 
 
 def main():
-    kinds = ["unparse", "rename", "noop", "flipcmp", "extract", "inline", "inlineall", "ifswap", "elsewrap", "unelse"]
+    kinds = ["unparse", "rename", "noop", "flipcmp", "extract", "inline", "inlineall", "ifswap", "elsewrap", "unelse", "ifexp"]
     mods = []
     props = [p for p in PROPS if has_checker(p)]
     argv = sys.argv[1:]
